@@ -42,7 +42,7 @@ class ImmutableKnotVector(tuple):
                 return False
         if degree is None:
             degree = 0
-            while vector[degree] == vector[degree + 1]:
+            while degree + 2 < lenght and vector[degree] == vector[degree + 1]:
                 degree += 1
         npts = lenght - degree - 1
         if not degree < npts:
